@@ -212,7 +212,7 @@ def build_model(log):
         if stamp_ok('ml', key) and os.path.exists(os.path.join(ml, 'rsm')):
             return True, ''
         os.makedirs(ml, exist_ok=True)
-        res, out, _ = coq_build(['Model/Scenario.vo', 'Gen/Kernels_gen.vo', 'Gen/Params_gen.vo', 'Model/Spec.vo'], log)
+        res, out, _ = coq_build(['Model/Scenario.vo', 'Gen/Kernels_gen.vo', 'Gen/Params_gen.vo', 'Model/Spec.vo', 'Model/Queue.vo'], log)
         if not all(res.values()):
             return False, 'model does not compile: ' + out[-3000:]
         rc, out, dt = sh(f'timeout 600 coqc -Q {COQ} RS {COQ}/Extract/Extract.v', cwd=ml)
@@ -224,6 +224,15 @@ def build_model(log):
         log.append(f'[ocaml] rc={rc} {dt:.1f}s')
         if rc != 0:
             return False, 'ocaml build failed: ' + out[-3000:]
+        # the queue / lifecycle models and their trace validator
+        rc, out, dt = sh(f'timeout 600 coqc -Q {COQ} RS {COQ}/Extract/ExtractQ.v', cwd=ml)
+        if rc != 0:
+            return False, 'extraction (queue model) failed: ' + out[-3000:]
+        shutil.copy(os.path.join(VERIF, 'ocaml/qv.ml'), ml)
+        rc, out, dt = sh('ocamlfind ocamlopt -w -a qmodel.mli qmodel.ml qv.ml -o qv', cwd=ml, timeout=600)
+        log.append(f'[ocaml qv] rc={rc} {dt:.1f}s')
+        if rc != 0:
+            return False, 'ocaml build (qv) failed: ' + out[-3000:]
         stamp_set('ml', key)
         return True, ''
 
@@ -265,6 +274,11 @@ def run_impl(exe, infile, outfile, timeout=900, env_extra=None):
     if env_extra:
         env.update(env_extra)
     rc, out, dt = sh([exe, infile, outfile], timeout=timeout, env=env)
+    return rc, out, dt
+
+
+def run_qv(infile, outfile, timeout=900):
+    rc, out, dt = sh([os.path.join(CACHE, 'ml', 'qv'), infile, outfile], timeout=timeout)
     return rc, out, dt
 
 
